@@ -61,7 +61,7 @@ def reviews : List Review := [
   ⟨.cast, "authority/ssh.go:Authority.renewSSH", "cast.Uint64", 2, .notClient "wall clock ± configured backdate/duration"⟩,
   ⟨.cast, "authority/ssh.go:Authority.rekeySSH", "cast.Int64", 1, .guarded "as renewSSH"⟩,
   ⟨.cast, "authority/ssh.go:Authority.rekeySSH", "cast.Uint64", 2, .notClient "wall clock ± configured backdate/duration"⟩,
-  ⟨.cast, "authority/provisioner/controller.go:DefaultAuthorizeSSHRenew", "cast.Int64", 3, .guarded "certificate authorized by SSHPOP.authorizeToken first"⟩,
+  ⟨.cast, "authority/provisioner/controller.go:DefaultAuthorizeSSHRenew", "cast.SafeInt64", 2, .guarded "Safe variant (fix 763c7e1): out-of-range bounds are answered 401"⟩,
   ⟨.cast, "authority/provisioner/sign_ssh_options.go:sshDefaultDuration.Modify", "cast.Uint64", 3, .notClient "wall clock and configured durations"⟩,
   ⟨.cast, "authority/provisioner/sign_ssh_options.go:sshLimitDuration.Modify", "cast.Uint64", 3, .notClient "wall clock, configured durations, NotAfter of the verified credential"⟩,
   ⟨.cast, "authority/provisioner/sign_ssh_options.go:sshLimitDuration.Modify", "cast.Int64", 2, .proved "C06 ssh validity model: ValidAfter/ValidBefore set by safe modifiers are < 2^63"⟩,
